@@ -41,7 +41,7 @@ m = {
     "engines": [{"name": "bufsa", "path": "/verif/sa", "serves_properties": [c["property_id"] for c in checks],
                  "kind_free_text": "repository-specific static analyser (go/packages + go/cfg + go/ssa): obligations = rule x code construct, decided from the type-checked working tree on every run"}],
     "checks": checks,
-    "notes": "Tiers: quick = the structural analysis of /repo's working tree; thorough = the same analysis plus SELF-CHECK (every stored seeded change of the property is applied in memory through the loader's overlay and must make the check fail, so a rule that silently stopped biting is reported) plus, for C13/C14/C19, a second load with GOOS=windows that runs the rules on the windows-only implementations. All claims are at level 'other': each check decides structural necessary conditions of its property (listed in level_claimed.text) and says what it does not decide (level_note). See DESIGN.md. Genuine defects found are in known_findings.json.",
+    "notes": "Tiers: quick = the structural analysis of /repo's working tree; thorough = the same analysis plus SELF-CHECK (every stored seeded change of the property is applied in memory through the loader's overlay and must make the check fail, so a rule that silently stopped biting is reported) plus REFACTOR-SILENT (every stored behaviour-preserving refactoring of the property, applied the same way, must cause no new failing obligation) plus, for C13/C14/C19, a second load with GOOS=windows that runs the rules on the windows-only implementations. All claims are at level 'other': each check decides structural necessary conditions of its property (listed in level_claimed.text) and says what it does not decide (level_note). See DESIGN.md. Genuine defects found are in known_findings.json.",
     "not_applicable": na,
 }
 json.dump(m, open(os.path.join(HERE, "MANIFEST.json"), "w"), indent=1)
